@@ -98,6 +98,10 @@ def cases(thorough):
         for w in (1 / 4, 1.0):
             for d in (["z", "x"] if ndim == 3 else ["z"]):
                 yield dict(base, block="V", dx=w, resolution=3, direction=d, origin=origins[0], vector_layer=True)
+        # vector layers with u and v chosen by the caller: every axis triple (the non-cyclic ones are left-handed), upper case, y
+        if ndim == 3:
+            for d in ("zyx", "xzy", "yxz", "yzx", "zxy", "xyz", "y", "ZYX"):
+                yield dict(base, block="V", dx=1 / 2, resolution=3, direction=d, origin=origins[1], vector_layer=True)
         # block W: the kernels under map() on 2 and 3 virtual threads (static work split), windows larger than the domain
         # and meshes with holes, image heights the thread count does not divide
         if ti % 2 == 0 or holes or thorough:
